@@ -10,7 +10,7 @@ from hypothesis import strategies as st
 from vlib import gen
 from vlib import ref_c16 as R
 from vlib.case import hash_noise, smooth_field, tdtype
-from vlib.core import EPS32, Facet, Violation, check_close, eps_of
+from vlib.core import EPS32, Facet, Skip, Violation, check_close, eps_of
 from vlib.findings import Known
 
 PROPERTY = "C16"
@@ -19,13 +19,21 @@ MANIFEST = {
             "single/multi-channel, binary and soft), intensity affine maps, kernel sizes, bin counts, reductions and options. "
             "Pointwise, correlation and overlap losses are compared with plain float64 numpy reference models (brute-force window "
             "sums for the local correlations) and with the axioms of the statement (identity, range, symmetry, affine invariance, "
-            "mask semantics, norm, reductions, Tversky(1/2,1/2) = Dice); mutual information is checked for swap symmetry, the "
+            "mask semantics, norm, reductions, Tversky(1/2,1/2) = Dice); mutual information is compared with a float64 Parzen-window "
+            "model (explicit range and the default joint range of the pair) and checked for swap symmetry, the "
             "documented NMI range and mi(x,x) <= mi(x,y) on the sub-domain where this is a theorem for the Parzen estimate; every "
-            "module of losses.image is compared with its functional form under the same options. Exploration: no absence proof; "
+            "module of losses.image is compared with its functional form under the same options, and every concrete pairwise "
+            "image loss class exported by deepali.losses (enumerated from the package, PatchwiseImageLoss included) is checked to be "
+            "a stateless function of its constructor arguments and inputs: one instance is called 2-4 times with pairs of "
+            "different intensity range, shape, dimension, batch, dtype, masks and requires_grad, and every call must agree with "
+            "the functional form, a fresh instance and the float64 model, leave the instance's attributes / buffers and all input "
+            "tensors unchanged and pass gradients like the functional form. Exploration: no absence proof; "
             "tolerances are derived from float32 rounding and the conditioning of the correlation coefficient.",
     "note": "Trusted: numpy, the reference models in vlib/ref_c16.py (self-tested on closed-form cases), the conditioning bound "
             "of the squared correlation coefficient derived in props/c16.py; CPU, float32/float64 inputs; images <= 20^2 / 10^3; "
-            "random sub-sampling options of mi_loss are not exercised (they draw from the global torch RNG).",
+            "random sub-sampling options of mi_loss are not exercised (they draw from the global torch RNG); PatchwiseImageLoss is "
+            "compared with the pairwise loss of patches sampled with deepali's own grid_sample / grid_sample_mask (sampler trusted "
+            "here, it belongs to another property).",
     "technique": "property-based testing (Hypothesis) with float64 reference models, metamorphic relations and differential module/function comparison",
 }
 ASSUMPTIONS = [
@@ -34,7 +42,18 @@ ASSUMPTIONS = [
     "are counted as ill-conditioned and not compared",
     "mi_loss(x,x) <= mi_loss(x,y) is asserted only where it is a theorem for the Parzen estimate: intensities on interior bin "
     "centres, levels of x at least 6 bins apart (data-processing inequality); slack (B^2+2B) 1e-5 for the +1e-5 regularisers",
-    "mi_loss/nmi_loss: C = 1, explicit vmin/vmax/num_bins, no random sub-sampling",
+    "mi_loss/nmi_loss: C = 1, explicit num_bins for every comparison with the model, no random sub-sampling; vmin/vmax explicit or "
+    "left at their default, which the model takes to be the joint intensity range of the two images (the only choice that is "
+    "symmetric in the arguments and covers both images)",
+    "Parzen-window model of mi_loss: num_bins equally spaced centres from vmin to vmax, Gaussian window with FWHM (vmax - vmin) / "
+    "num_bins, including the estimator's 1e-5 regularisers; rounding bound rho (S_x + S_y + S_xy) with rho = 4 (128 eps + 9 dc / "
+    "sigma) + (2 n + 16 + bins) eps, dc = 4 eps32 max(|vmin|, |vmax|) (bin centres are float32 whatever the input dtype); cases "
+    "with rho > 5e-3 are counted as ill-conditioned and not compared with the model; masked MI: no model (mi_loss multiplies the "
+    "intensities by the mask, undocumented for anything but a region of interest), differential and symmetry checks only",
+    "stateless modules: attributes present after construction (type-exact), parameters, buffers and sub-modules must be unchanged "
+    "by forward(); NEW private attributes are not reported (a correctly keyed cache is legitimate, a wrong one shows in the values)",
+    "module vs functional form / fresh instance: the same computation, so agreement within 4 eps of the result (64 eps for MI and "
+    "data-derived norms; PatchwiseImageLoss: n eps for its differently strided patch tensors)",
     "windowed-loss reference for wlcc_loss uses binary masks (soft masks: structural checks only)",
     "kernel sizes are odd (documented requirement for shape preservation)",
 ]
@@ -599,8 +618,11 @@ def mi_cases(draw):
         "mask": draw(st.one_of(st.none(), mask_desc(("11", "N1"), soft=False))),
         "fill": draw(st.sampled_from([1.0, 1.0, 0.6])),  # fraction of [vmin, vmax] covered by the data (generic mode)
         "rel": draw(st.sampled_from([0.0, 0.5, 0.9])),
+        # 'default': vmin / vmax are left to mi_loss (joint intensity range of the pair)
+        "range": draw(st.sampled_from(["explicit", "explicit", "default"])),
     }
     if mode == "levels":
+        case["range"] = "explicit"  # the levels must sit on interior bin centres of a known range
         case["levels"] = draw(st.integers(2, (bins - 7) // 6 + 1))
         case["mask"] = None
     return case
@@ -626,6 +648,29 @@ def mi_images(case):
     return off + (vmax - vmin) * f * x, off + (vmax - vmin) * f * y
 
 
+def mi_reference(value_name, xr, yr, vmin, vmax, bins, dt):
+    """(expected, bound) of mi_loss / nmi_loss from the float64 model, or None where rounding is not small.
+
+    Rounding model: bin centres are float32 (torch.linspace) whatever the input dtype: |dc| <= 4 eps32 max(|vmin|,|vmax|);
+    a window response exp(-u^2/2), u = (x - c)/sigma, that matters (u <= 9) changes relatively by <= u du = 9 dc/sigma
+    plus 128 eps for the arithmetic; joint histogram entries are sums of n products of two responses; probabilities
+    are ratios of such sums; an entropy -sum p log(p + 1e-5) changes by <= rho sum p (|log(p + 1e-5)| + 1)."""
+    eps = eps_of(dt)
+    r = R.mi(xr, yr, vmin, vmax, bins, normalized=(value_name == "nmi"))
+    n = int(np.prod(xr.shape[2:]))
+    dc = 4 * EPS32 * max(abs(r["vmin"]), abs(r["vmax"]))
+    rho = 4 * (128 * eps + 9 * dc / r["sigma"]) + (2 * n + 16 + bins) * eps
+    if not (rho <= 5e-3) or not np.isfinite(r["loss"]):
+        return None
+    if value_name == "nmi":
+        if (r["Hxy"] < 0.1).any():
+            return None
+        per = 2 * rho * (r["Sx"] + r["Sy"] + (r["Hx"] + r["Hy"]) / r["Hxy"] * r["Sxy"]) / r["Hxy"]
+    else:
+        per = 2 * rho * (r["Sx"] + r["Sy"] + r["Sxy"])
+    return r["loss"], float(per.mean()) + 16 * eps * (1 + abs(r["loss"]))
+
+
 def run_mi(case):
     import deepali.losses.functional as L
 
@@ -638,10 +683,13 @@ def run_mi(case):
     bins = case["bins"]
     n = int(np.prod(case["shape"]))
     kw = dict(vmin=case["vmin"], vmax=case["vmax"], num_bins=bins)
+    if case.get("range") == "default":
+        kw = dict(num_bins=bins)
     # rounding: entries of the joint histogram are sums of n products (relative error <= n eps, first order); an
     # entropy -sum p log p changes by <= (H + 1) x that, H <= log(bins^2)
     b_round = (256 + n) * eps * (1 + 2 * math.log(bins))
     worst = 0.0
+    refs = 0
     vals = {}
     for name, fn in (("mi", L.mi_loss), ("nmi", L.nmi_loss)):
         v_xy = fn(x, y, mask=m, **kw)
@@ -651,11 +699,17 @@ def run_mi(case):
         vals[name] = float(v_xy)
         scale = 3.0 if name == "mi" else 8.0  # d(nmi) <= (dHx + dHy + 2 dHxy) / Hxy; Hxy >= 0.8 by the blur of the Parzen window
         worst = max(worst, check_close(v_yx, as64(v_xy), scale * b_round, f"{name}_symmetry", f"{name}_loss(y, x) != {name}_loss(x, y)"))
+        if m is None:
+            # float64 Parzen-window model (explicit range, or the joint intensity range of the pair by default)
+            rf = mi_reference(name, as64(x), as64(y), kw.get("vmin"), kw.get("vmax"), bins, dt)
+            if rf is not None:
+                refs += 1
+                worst = max(worst, check_close(v_xy, rf[0], rf[1], f"{name}_reference", f"{name}_loss({', '.join(sorted(kw))}) vs float64 Parzen-window model"))
     # documented range of the normalised loss
     if not (-1e-3 <= vals["nmi"] <= 2 + 1e-3):
         raise Violation("nmi_range", f"nmi_loss = {vals['nmi']:.6g} outside the documented range [0, 2]")
     labels = [case["mode"], case["dtype"], f"N={shp[0]}", f"D={case['D']}", "bins<=16" if bins <= 16 else "bins>16",
-              "mask=" + (case["mask"]["kind"] if case["mask"] else "none")]
+              "mask=" + (case["mask"]["kind"] if case["mask"] else "none"), "range=" + case.get("range", "explicit"), f"refs={refs}"]
     if case["mode"] == "levels":
         v_xx = float(L.mi_loss(x, x, **kw))
         slack = (bins * bins + 2 * bins) * 1e-5 + 3 * b_round + 1e3 * eps * bins
@@ -991,6 +1045,436 @@ def run_modules(case):
 
 
 # ---------------------------------------------------------------------------------------
+# facet 7: loss modules are stateless functions of their constructor arguments and their inputs
+#
+# One instance of a loss class is called 2-4 times with image pairs that differ in intensity range, shape, number of
+# spatial dimensions, batch size, channels, dtype, mask presence and requires_grad.  EVERY call must agree with the
+# functional form, with a freshly constructed instance and (where a model exists) with the float64 reference; the
+# constructor attributes / buffers / state_dict of the instance and all input tensors must be unchanged afterwards.
+
+POINT_FAMILY = {"mse": "mse", "ssd": "ssd", "mae": "mae", "huber": "huber", "smooth_l1": "smooth_l1"}
+
+
+def loss_class_names():
+    """Names of all concrete pairwise image loss classes exported by deepali.losses (aliases included), enumerated
+    from the package so that a class added later is picked up (without an adapter: counted as skipped)."""
+    import inspect
+
+    import deepali.losses as LM
+    from deepali.losses.base import PairwiseImageLoss
+
+    return sorted(n for n, c in vars(LM).items() if isinstance(c, type) and issubclass(c, PairwiseImageLoss) and not inspect.isabstract(c))
+
+
+def loss_family(name):
+    import deepali.losses as LM
+
+    cls = getattr(LM, name)
+    table = ((LM.PatchwiseImageLoss, "patch"), (LM.NMI, "mi"), (LM.MI, "mi"), (LM.WLCC, "wlcc"), (LM.LCC, "lcc"), (LM.NCC, "ncc"),
+             (LM.Dice, "dice"), (LM.HuberImageLoss, "huber"), (LM.SmoothL1ImageLoss, "smooth_l1"), (LM.L1ImageLoss, "mae"),
+             (LM.L2ImageLoss, "mse"), (LM.SSD, "ssd"))
+    for c, fam in table:
+        if cls is c:
+            return fam
+    return None
+
+
+PATCH_INNER = ("default", "default", "SSD", "MSE", "MAE", "NCC", "NCC")
+
+
+@st.composite
+def sequence_cases(draw):
+    cls = draw(st.sampled_from(loss_class_names()))
+    fam = loss_family(cls)
+    case = {"cls": cls, "family": fam}
+    if fam is None:
+        return case
+    windowed = fam in ("lcc", "wlcc")
+    opts = {}
+    same_D = None
+    ksz = None
+    if fam in POINT_FAMILY:
+        opts["norm"] = draw(st.sampled_from(["none", "false", "value", "value", "images", "true_images"]))
+        opts["norm_value"] = draw(gen.logfloat(0.01, 100.0))
+        opts["norm_form"] = draw(st.sampled_from(["float", "float", "tensor0", "tensor1"]))  # form of a given norm value
+        if fam in ("huber", "smooth_l1"):
+            opts["thr_name"] = draw(st.sampled_from(["none", "delta", "beta"]))
+            opts["thr"] = draw(st.sampled_from([0.05, 0.25, 0.5, 2.0]))
+    elif fam in ("ncc", "lcc", "wlcc", "dice"):
+        opts["epsilon"] = draw(st.sampled_from([None, None, 1e-15, 1e-4, 1e-2]))
+        if windowed:
+            ksz = draw(st.sampled_from([None, 3, 3, 5]))  # None = default kernel size 7
+            opts["kernel_size"] = ksz
+            opts["kernel_tuple"] = ksz is not None and draw(st.booleans())  # a tuple fixes the number of dimensions
+            if opts["kernel_tuple"]:
+                same_D = draw(gen.dims())
+    elif fam == "mi":
+        opts["range"] = draw(st.sampled_from(["default", "default", "explicit"]))
+        opts["bins_name"] = draw(st.sampled_from(["num_bins", "bins"]))
+        opts["bins"] = draw(st.sampled_from([8, 16, 16, 32, 32, None]))  # None: default number of bins (no reference value asserted)
+        opts["normalized"] = draw(st.booleans())  # only used by the class MI (NMI is always normalised)
+    else:
+        same_D = 3
+        opts["inner"] = draw(st.sampled_from(PATCH_INNER))
+        opts["norm_value"] = draw(gen.logfloat(0.01, 100.0))
+        opts["pshape"] = [draw(st.integers(1, 3)), draw(st.integers(1, 4)), draw(st.integers(1, 4))]
+        opts["pkey"] = draw(st.integers(0, 9999))
+        opts["pdtype"] = draw(gen.dtypes())
+    low = (7 if ksz is None else ksz) if windowed else (3 if fam == "mi" else 1)
+    soft = fam not in ("mi", "patch") and (fam != "wlcc" or draw(st.booleans()))  # wlcc: reference model for binary masks only
+    calls = []
+    for _ in range(draw(st.integers(2, 4))):
+        D = same_D if same_D is not None else draw(gen.dims())
+        c = images_base(draw, 12, 8 if windowed else 6, D=D, min_sizes=[low] * D, max_c=1 if fam == "mi" else 3)
+        if calls and draw(st.integers(0, 2)) == 0:
+            # same geometry as the previous call, new content: state kept from it would fit and silently change the value
+            c.update({k: calls[-1][k] for k in ("D", "shape", "N", "C")})
+        c["dtype"] = draw(gen.dtypes())
+        c["grad"] = draw(st.sampled_from([False, False, True]))
+        c["content"] = "noise"
+        kinds = ("11", "N1") if fam == "mi" else (("N1", "NC") if fam == "dice" else (("N1",) if fam == "patch" else ("11", "N1", "NC", "1C")))
+        c["mask"] = draw(st.one_of(*[st.none()] * (3 if fam == "mi" else 1), mask_desc(kinds, soft=soft)))
+        if fam == "ncc" and k6_active():
+            c["mask"] = None
+        if fam == "patch":
+            if opts["inner"] == "NCC" and k6_active():
+                c["mask"] = None
+            if c["mask"] is not None:
+                c["C"] = 1  # grid_sample_mask: single-channel mask of the shape of the images
+        if fam == "wlcc":
+            form = draw(st.sampled_from(["none", "m", "st", "st", "mst", "s", "t"]))  # documented combinations of the three masks
+            md = mask_desc(("11", "N1", "NC"), soft=soft)
+            c["mask"] = draw(mask_desc(kinds, soft=soft)) if "m" in form else None
+            c["source_mask"] = draw(md) if "s" in form else None
+            c["target_mask"] = draw(md) if "t" in form else None
+        calls.append(c)
+    if fam == "mi" and opts["range"] == "explicit":
+        opts["vmin"] = min(c["lo"] for c in calls)
+        opts["vmax"] = max(c["lo"] + c["R"] for c in calls)
+    case["opts"] = opts
+    case["calls"] = calls
+    return case
+
+
+def seq_tensors(case, c):
+    """float64 arrays and tensors of one call: x, y, masks (dict name -> array)."""
+    fam = case["family"]
+    shp = full_shape(c)
+    x64, y64 = make_pair(c)
+    if fam == "dice":
+        x64, y64 = (x64 > np.median(x64)).astype(np.float64), (y64 > np.median(y64)).astype(np.float64)
+    masks = {}
+    for key in ("mask", "source_mask", "target_mask"):
+        if c.get(key) is not None:
+            masks[key] = make_mask(c[key], shp, c["key"])
+    return x64, y64, masks
+
+
+def freeze(v):
+    """Hashable, comparable snapshot of an attribute value (type-exact)."""
+    if isinstance(v, torch.Tensor):
+        return ("tensor", str(v.dtype), tuple(v.shape), bool(v.requires_grad), v.detach().cpu().contiguous().numpy().tobytes())
+    if isinstance(v, torch.nn.Module):
+        return ("module", type(v).__qualname__, module_state(v))
+    if isinstance(v, (list, tuple)):
+        return (type(v).__name__,) + tuple(freeze(u) for u in v)
+    if isinstance(v, (set, frozenset)):
+        return (type(v).__name__,) + tuple(sorted(repr(u) for u in v))
+    if isinstance(v, dict):
+        return ("dict",) + tuple((repr(k), freeze(u)) for k, u in v.items())
+    return (type(v).__name__, repr(v))
+
+
+_TORCH_INTERNAL = None
+
+
+def module_state(mod):
+    """Snapshot of the attributes of a module: everything in its __dict__ except torch's hook registries; parameters,
+    buffers (persistent or not) and sub-modules are included, i.e. state_dict() is covered."""
+    global _TORCH_INTERNAL
+    if _TORCH_INTERNAL is None:
+        _TORCH_INTERNAL = set(vars(torch.nn.Module())) - {"training", "_parameters", "_buffers", "_modules", "_non_persistent_buffers_set"}
+    return tuple((k, freeze(v)) for k, v in sorted(vars(mod).items()) if k not in _TORCH_INTERNAL)
+
+
+def state_changes(before, after):
+    """Names of the attributes present after construction whose value (or type) differs now, and of parameters /
+    buffers / sub-modules that appeared.  New plain attributes are not reported (a correctly keyed cache is legitimate)."""
+    a = dict(after)
+    return [k for k, v in before if k not in a or a[k] != v]
+
+
+def corr_mean_reference(loss, xr, yr, k, eps, m64s):
+    """(expected, bound) of the default 'mean' reduction of ncc/lcc/wlcc from the brute-force model, or None."""
+    score, B, C, nw, agg, Ms, Mt = corr_ref(loss, xr, yr, k, eps, m64s)
+    bound = corr_bound(Ms, Mt, B, C, nw)
+    wscore, denom, mb = weighted(score, agg, score.shape)
+    wbound = bound if mb is None else np.where(mb > 0, bound * np.maximum(mb, 1e-300), 1e-30)
+    if not np.isfinite(wbound).all():
+        return None
+    bsum = float(wbound.sum()) + 256 * EPS32 * float(np.abs(wscore).sum())
+    return float(wscore.sum()) / denom, bsum / denom
+
+
+def pointwise_default_reference(name, param, xr, yr, m, nrm, norm_slack_eps, eps):
+    """(expected, bound) of a pointwise loss with its documented default reduction ('sum' for ssd, else 'mean')."""
+    elem = R.pointwise(name, xr, yr, param)
+    mb = None if m is None else np.broadcast_to(m, elem.shape)
+    red = "sum" if name == "ssd" else "mean"
+    exp = float(R.reduce_masked(elem, m, red, nrm))
+    wsum = float(np.abs(elem if mb is None else elem * mb).sum())
+    b = 256 * eps * max(wsum, 1e-300) / nrm / (1.0 if red == "sum" else float(elem.size if mb is None else mb.sum()))
+    return exp, b + 64 * norm_slack_eps * abs(exp)
+
+
+def patch_reshape(t):
+    """(N, C, Z, Y, X) -> (N Z, C, 1, Y, X): every 2-D patch becomes one image of the batch."""
+    N, C, Z, Y, X = t.shape
+    return torch.stack([t[n, :, z] for n in range(N) for z in range(Z)], 0).unsqueeze(2)
+
+
+def run_sequence(case):
+    import deepali.core.functional as U
+    import deepali.losses as LM
+    import deepali.losses.functional as L
+    fam = case["family"]
+    cls = case["cls"]
+    if fam is None or loss_family(cls) != fam:
+        raise Skip(f"no adapter for loss class {cls}")
+    opts = case["opts"]
+    calls = case["calls"]
+    ctor = getattr(LM, cls)
+    first = seq_tensors(case, calls[0])
+    dt0 = tdtype(calls[0]["dtype"])
+    ctor_tensors = {}  # tensors handed to the constructor (must not be modified either)
+    norm_slack_eps = 0.0
+    nrm_ref = None  # reference value of a data-derived / given norm
+
+    # ---- constructor arguments, functional form, reference model
+    ckw, fkw = {}, {}
+    fn = None
+    if fam in POINT_FAMILY:
+        fn = {"mse": L.mse_loss, "ssd": L.ssd_loss, "mae": L.mae_loss, "huber": L.huber_loss, "smooth_l1": L.smooth_l1_loss}[fam]
+        nm = opts["norm"]
+        if nm == "false":
+            ckw["norm"] = False
+        elif nm == "value":
+            fkw["norm"] = nrm_ref = opts["norm_value"]
+            if opts["norm_form"] == "float":
+                ckw["norm"] = opts["norm_value"]
+            else:  # 0-dim / 1-element tensor of the dtype of the first pair; the functional form gets its own copy
+                ctor_tensors = {"norm": torch.tensor(opts["norm_value"] if opts["norm_form"] == "tensor0" else [opts["norm_value"]], dtype=dt0)}
+                ckw.update(ctor_tensors)
+                fkw["norm"] = nrm_ref = float(ctor_tensors["norm"].reshape(()))
+        elif nm in ("images", "true_images"):
+            ctor_tensors = {"source": T(first[0], dt0), "target": T(first[1], dt0)}
+            ckw.update(ctor_tensors)
+            if nm == "true_images":
+                ckw["norm"] = True
+            fkw["norm"] = nrm_ref = R.max_difference_sq(as64(ctor_tensors["source"]), as64(ctor_tensors["target"]))
+            norm_slack_eps = eps_of(dt0)
+        param = 1.0
+        if fam in ("huber", "smooth_l1") and opts["thr_name"] != "none":
+            param = opts["thr"]
+            ckw[opts["thr_name"]] = param
+            fkw["delta" if fam == "huber" else "beta"] = param
+    elif fam in ("ncc", "lcc", "wlcc", "dice"):
+        if opts["epsilon"] is not None:
+            ckw["epsilon"] = fkw["epsilon"] = opts["epsilon"]
+        if fam in ("lcc", "wlcc") and opts["kernel_size"] is not None:
+            ks = (opts["kernel_size"],) * calls[0]["D"] if opts["kernel_tuple"] else opts["kernel_size"]
+            ckw["kernel_size"] = fkw["kernel_size"] = ks
+    elif fam == "mi":
+        if opts["range"] == "explicit":
+            ckw.update(vmin=opts["vmin"], vmax=opts["vmax"])
+            fkw.update(vmin=opts["vmin"], vmax=opts["vmax"])
+        if opts["bins"] is not None:
+            ckw[opts["bins_name"]] = opts["bins"]
+            fkw["num_bins"] = opts["bins"]
+        normalized = True if ctor is LM.NMI else bool(opts["normalized"])
+        if ctor is LM.MI and normalized:
+            ckw["normalized"] = True
+        fn = L.nmi_loss if normalized else L.mi_loss
+    else:
+        ctor_tensors = {"patches": T(hash_noise((1,) + tuple(opts["pshape"]) + (3,), opts["pkey"], -1.05, 1.05), tdtype(opts["pdtype"]))}
+        inner = opts["inner"]
+        fn = {"default": L.ssd_loss, "SSD": L.ssd_loss, "MSE": L.mse_loss, "MAE": L.mae_loss, "NCC": L.ncc_loss}[inner]
+        if inner == "MSE":
+            fkw["norm"] = opts["norm_value"]
+
+    def construct():
+        if fam != "patch":
+            return ctor(**ckw)
+        inner = opts["inner"]
+        if inner == "default":
+            return ctor(ctor_tensors["patches"])
+        sub = LM.MSE(norm=opts["norm_value"]) if inner == "MSE" else getattr(LM, inner)()
+        return ctor(ctor_tensors["patches"], loss_fn=sub)
+
+    def functional(x, y, ms):
+        """The functional form of deepali.losses.functional with the constructor's options."""
+        m = ms.get("mask")
+        if fam in POINT_FAMILY or fam == "mi":
+            return fn(x, y, mask=m, **fkw)
+        if fam == "ncc":
+            return call_ncc(L.ncc_loss, x, y, m, **fkw)
+        if fam == "lcc":
+            return L.lcc_loss(x, y, mask=m, **fkw)
+        if fam == "wlcc":
+            return L.wlcc_loss(x, y, mask=m, source_mask=ms.get("source_mask"), target_mask=ms.get("target_mask"), **fkw)
+        if fam == "dice":
+            return L.dice_loss(x, y, weight=m, **fkw)
+        # patch loss = the pairwise loss of the sampled 2-D patches, each patch one image of the batch
+        g = ctor_tensors["patches"]
+        s, t = patch_reshape(U.grid_sample(x, g)), patch_reshape(U.grid_sample(y, g))
+        pm = None if m is None else patch_reshape(U.grid_sample_mask(m, g))
+        if opts["inner"] == "NCC":
+            return call_ncc(L.ncc_loss, s, t, pm)
+        return fn(s, t, mask=pm, **fkw)
+
+    def module_call(mod, x, y, ms):
+        if fam == "ncc":
+            return call_ncc(mod, x, y, ms.get("mask"))
+        if fam == "patch" and opts["inner"] == "NCC" and ms.get("mask") is not None:
+            return call_ncc(mod, x, y, ms.get("mask"))
+        return mod(x, y, **ms) if fam == "wlcc" else mod(x, y, mask=ms.get("mask"))
+
+    def reference(xr, yr, m64s, dt, c):
+        """(expected, bound) from the float64 model for the values deepali receives, or None."""
+        eps = eps_of(dt)
+        if fam in POINT_FAMILY:
+            nrm = 1.0 if nrm_ref is None else (float(torch.tensor(nrm_ref, dtype=dt)) if norm_slack_eps == 0.0 else nrm_ref)
+            return pointwise_default_reference(fam, param, xr, yr, m64s.get("mask"), nrm, norm_slack_eps, eps)
+        if fam == "patch":  # xr, yr, mask: the sampled patches (sampler trusted here), one patch per batch item
+            if opts["inner"] == "NCC":
+                return None if m64s else corr_mean_reference("ncc", xr, yr, None, None, {})
+            name = {"default": "ssd", "SSD": "ssd", "MSE": "mse", "MAE": "mae"}[opts["inner"]]
+            nrm = float(torch.tensor(opts["norm_value"], dtype=dt)) if opts["inner"] == "MSE" else 1.0
+            # grid_sample_mask returns a float32 mask: its sum (the 'mean' denominator) is accumulated in float32
+            return pointwise_default_reference(name, 1.0, xr, yr, m64s.get("mask"), nrm, 0.0, max(eps, EPS32) if m64s else eps)
+        if fam in ("ncc", "lcc", "wlcc"):
+            soft = any(c.get(key) and c[key]["soft"] for key in ("mask", "source_mask", "target_mask"))
+            if (fam == "wlcc" and soft) or (fam == "ncc" and m64s):
+                return None
+            k = fkw.get("kernel_size", 7)
+            return corr_mean_reference(fam, xr, yr, k, fkw.get("epsilon"), m64s)
+        if fam == "dice":
+            d = R.dice_binary(xr, yr, m64s.get("mask"), fkw.get("epsilon", 1e-15))
+            return float((1 - d).mean()), 256 * EPS32
+        if fam == "mi":
+            if m64s or opts["bins"] is None:
+                return None
+            return mi_reference("nmi" if fn is L.nmi_loss else "mi", xr, yr, fkw.get("vmin"), fkw.get("vmax"), opts["bins"], dt)
+        return None
+
+    casts32 = fam in ("ncc", "lcc", "wlcc", "dice") or (fam == "patch" and opts["inner"] == "NCC")
+    mod = construct()
+    state0 = module_state(mod)
+    ctor_copies = {k: v.detach().clone() for k, v in ctor_tensors.items()}
+    worst = 0.0
+    refs = empty = 0
+    labels = [cls, f"calls={len(calls)}"]
+    for i, c in enumerate(calls):
+        dt = tdtype(c["dtype"])
+        eps = eps_of(dt)
+        x64, y64, m64 = first if i == 0 else seq_tensors(case, c)
+
+        def inputs():
+            x, y = T(x64, dt), T(y64, dt)
+            if c["grad"]:
+                x.requires_grad_(True)
+            return x, y, {k: T(v, dt) for k, v in m64.items()}
+
+        x, y, ms = inputs()
+        keep = {"source": x.detach().clone(), "target": y.detach().clone(), **{k: v.clone() for k, v in ms.items()}}
+        got = module_call(mod, x, y, ms)
+        xf, yf, msf = inputs()
+        want = functional(xf, yf, msf)
+        xn, yn, msn = inputs()
+        fresh = module_call(construct(), xn, yn, msn)
+        when = "first_call" if i == 0 else "later_call"
+        what = f"{cls}({', '.join(sorted(ckw))}) call {i + 1} of {len(calls)} (shape {tuple(x.shape)}, {c['dtype']}, range [{c['lo']:g}, {c['lo'] + c['R']:g}], masks {sorted(ms)})"
+        if not isinstance(got, torch.Tensor) or got.shape != want.shape or got.dtype != want.dtype:
+            raise Violation("stateless_module_vs_functional_" + when,
+                            f"{what} returned {type(got).__name__} {getattr(got, 'shape', None)} {getattr(got, 'dtype', None)}, functional form {tuple(want.shape)} {want.dtype}")
+        # inputs (and the tensors given to the constructor) are not modified
+        now = {"source": x, "target": y, **ms}
+        for k, v in keep.items():
+            if not torch.equal(now[k].detach(), v):
+                raise Violation("module_modifies_inputs", f"{what}: tensor {k!r} was modified in place (max change {float((now[k].detach() - v).abs().max()):.6g})")
+        for k, v in ctor_copies.items():
+            if not torch.equal(ctor_tensors[k].detach(), v):
+                raise Violation("module_modifies_inputs", f"{what}: constructor tensor {k!r} was modified in place")
+        # float64 reference for the values deepali receives
+        cast = f32 if casts32 else as64
+        if fam == "patch":
+            g = ctor_tensors["patches"]
+            xr, yr = cast(patch_reshape(U.grid_sample(x.detach(), g))), cast(patch_reshape(U.grid_sample(y.detach(), g)))
+            mr = {k: cast(patch_reshape(U.grid_sample_mask(v, g))) for k, v in ms.items()}
+        else:
+            xr, yr = cast(x.detach()), cast(y.detach())
+            mr = {k: cast(v) for k, v in ms.items()}
+        # the instance itself is unchanged
+        changed = state_changes(state0, module_state(mod))
+        if changed:
+            raise Violation("module_state_changed", f"{what}: attributes / buffers changed by forward(): {changed}")
+        if fam == "patch" and "mask" in mr and float(mr["mask"].sum()) == 0.0:
+            # no patch point lies inside the mask: 'mean' is 0 / 0, outside the domain of the value comparisons
+            empty += 1
+            continue
+        rf = reference(xr, yr, mr, dt, c)
+        # module == functional form == fresh instance (the same computation: agreement up to a few roundings)
+        extra = 0.0
+        if fam in POINT_FAMILY:
+            rel = 4 * eps + 64 * norm_slack_eps
+        elif fam == "mi":
+            rel = 64 * eps
+        elif fam == "patch":
+            # the module's patch tensors may be strided differently from the ones built here: sums in another order
+            if casts32:
+                rel, extra = 4 * EPS32, (2 * rf[1] if rf is not None else ILL)
+            else:
+                rel = (4 + xr.size) * (max(eps, EPS32) if mr else eps)
+        elif casts32:
+            rel = 4 * EPS32
+        else:
+            rel = 4 * eps
+        scale = max(1e-30, float(want.detach().abs().max()))
+        worst = max(worst, check_close(got.detach(), as64(want), rel * scale + extra, "stateless_module_vs_functional_" + when,
+                                       f"{what} vs functional form with the constructor's options"))
+        worst = max(worst, check_close(got.detach(), as64(fresh), 4 * eps_of(got.dtype) * scale, "stateless_module_vs_fresh_instance",
+                                       f"{what} vs a newly constructed instance called with the same inputs"))
+        if rf is not None:
+            refs += 1
+            worst = max(worst, check_close(got.detach(), rf[0], rf[1], "stateless_module_vs_reference", f"{what} vs float64 reference model"))
+        # gradients flow through the module exactly as through the functional form
+        if got.requires_grad != want.requires_grad:
+            raise Violation("module_requires_grad", f"{what}: result requires_grad={got.requires_grad}, functional form {want.requires_grad}")
+        if c["grad"] and want.requires_grad:
+            try:  # a dissimilarity measure is minimised by gradient steps: its backward pass must exist
+                g_mod, = torch.autograd.grad(got.sum(), x, allow_unused=True)
+                g_fun, = torch.autograd.grad(want.sum(), xf, allow_unused=True)
+            except RuntimeError as e:
+                raise Violation("loss_backward_raises", f"{what}: backward pass raised RuntimeError: {str(e)[:160]}")
+            if (g_mod is None) != (g_fun is None):
+                raise Violation("module_gradient_mismatch", f"{what}: gradient w.r.t. source is {'missing' if g_mod is None else 'present'}, functional form the opposite")
+            if g_fun is not None:
+                gs = max(1e-30, float(g_fun.abs().max()))
+                worst = max(worst, check_close(g_mod, as64(g_fun), 16 * (rel + extra) * gs, "module_gradient_mismatch", f"{what}: d loss / d source vs functional form"))
+    ranges = {(c["lo"], c["R"]) for c in calls}
+    labels += ["ranges=" + str(min(len(ranges), 3)), "dtype_change" if len({c["dtype"] for c in calls}) > 1 else "dtype_same",
+               "D_change" if len({c["D"] for c in calls}) > 1 else "D_same", "mask_toggle" if len({c["mask"] is None for c in calls}) > 1 else "mask_same",
+               "N_change" if len({c["N"] for c in calls}) > 1 else "N_same", "grad" if any(c["grad"] for c in calls) else "nograd",
+               "refs=" + ("all" if refs == len(calls) else ("some" if refs else "none"))]
+    if fam == "mi":
+        labels.append("range=" + opts["range"])
+    if fam == "patch":
+        labels += ["inner=" + opts["inner"]] + (["empty_patch_mask"] if empty else [])
+    kinds_of_call = {(tuple(c["shape"]), c["N"], c["C"], c["dtype"], c["mask"] is None) for c in calls}
+    return {"ratio": worst, "nontrivial": len(ranges) >= 2 and len(kinds_of_call) >= 2, "labels": labels}
+
+
+# ---------------------------------------------------------------------------------------
 
 FACETS = [
     Facet("pointwise", run_pointwise, strategy=pointwise_cases,
@@ -1018,4 +1502,10 @@ FACETS = [
           rule="each class of losses.image constructed with generated options vs its functional form with the same options; non-trivial = the "
                "option changes the functional value",
           quick=1200, thorough=40000, shards=16, quick_shards=2),
+    Facet("stateless_modules", run_sequence, strategy=sequence_cases,
+          rule="every concrete PairwiseImageLoss class exported by deepali.losses (enumerated from the package, aliases and PatchwiseImageLoss "
+               "included): ONE instance called 2-4 times with pairs differing in intensity range, shape, D, N, C, dtype, masks, requires_grad; "
+               "each call vs functional form, fresh instance and float64 reference; attributes/buffers and inputs unchanged; gradients agree; "
+               "non-trivial = >= 2 intensity ranges and >= 2 distinct (shape, N, C, dtype, mask presence) in the sequence",
+          quick=1500, thorough=30000, shards=16, quick_shards=2),
 ]
